@@ -980,6 +980,8 @@ P29_CONFIGS = {
     "cf-2": dict(worker="cf", n_procs=2),
     "debug-ro-cache": dict(worker="debug", readonly="ro"),
     "cf-2-limited": dict(worker="cf", n_procs=2, max_concurrent=1, propagate_rerun=False),
+    # the worker handed over as a pre-built, non-default INSTANCE (no worker keyword arguments at the submitter)
+    "cf-instance-3": dict(worker_instance={"n_procs": 3}),
 }
 
 
